@@ -10,8 +10,9 @@
                                              packages is an input here)
       internal/server/mailbox/mailbox.go     the LIST / LSUB / STATUS lines
       internal/server/message/fetch.go       processFetchForMessage: the
-                                             two-accumulator assembly
-                                             (responseParts / literalData)
+                                             assembly of the response parts
+                                             (since the F14 fix every literal
+                                             is part of its item's part)
     The recognition of the requested items by substring tests is in
     Model/RespondFetch.v.  No proofs in this file. *)
 From Coq Require Import String Ascii List Bool Arith NArith ZArith.
@@ -39,6 +40,9 @@ Definition quote_or_nil (s : str) : str :=
   | [] => NIL
   | _ => DQ :: escape s ++ [DQ]
   end.
+
+(** utils.QuoteString (F15 fix): always a quoted string, never NIL *)
+Definition quote_string (s : str) : str := DQ :: escape s ++ [DQ].
 
 (** ---- extractHeader ---- *)
 Definition TAB : ascii := ascii_of_nat 9.
@@ -70,7 +74,9 @@ Fixpoint extract_lines (lines : list str) (nameU : str) (value : str) (inh : boo
 Definition extract_header (raw name : str) : str :=
   extract_lines (split_byte raw LF) (to_upper name) [] false.
 
-(** ---- parseAddressList ([None] = the Go slice expression panics) ---- *)
+(** ---- parseAddressList ([None] = the Go slice expression panics; since fix
+    e2cd37d the slice bounds are always ordered; regression example
+    [c13_address_stray_gt] in Properties/C13.v) ---- *)
 Definition split_at_first (s : str) (c : ascii) : str * str :=
   match index_byte s c with
   | Some i => (firstn i s, skipn (S i) s)
@@ -78,17 +84,20 @@ Definition split_at_first (s : str) (c : ascii) : str * str :=
   end.
 
 Definition addr_struct (addr : str) : option str :=
+  (* e2cd37d: the closing ">" is searched in addr[start:], after the "<" *)
   let ne :=
-    if contains addr ["<"] && contains addr [">"] then
-      match index addr ["<"], index addr [">"] with
-      | Some st_, Some en =>
-          match slice addr (Z.of_nat st_ + 1) (Z.of_nat en) with
-          | Some email => Some (trim (trim_space (firstn st_ addr)) [DQ], email)
-          | None => None
-          end
-      | _, _ => None
-      end
-    else Some ([], addr) in
+    match index addr ["<"] with
+    | Some st_ =>
+        match index (skipn st_ addr) [">"] with
+        | Some e =>
+            match slice addr (Z.of_nat st_ + 1) (Z.of_nat (e + st_)) with
+            | Some email => Some (trim (trim_space (firstn st_ addr)) [DQ], email)
+            | None => None
+            end
+        | None => Some ([], addr)
+        end
+    | None => Some ([], addr)
+    end in
   match ne with
   | None => None
   | Some (name, email) =>
@@ -194,39 +203,34 @@ Definition multipart_structure (parts : list str) (subT boundary : str) : str :=
 Definition fallback_structure (mainT subT : str) : str :=
   [LP] ++ quote_or_nil mainT ++ [SP] ++ quote_or_nil subT ++ S_ " NIL NIL NIL ""7BIT"" 0)".
 
-(** ---- LIST / LSUB / STATUS lines (mailbox.go: plain interpolation) ---- *)
+(** ---- LIST / LSUB / STATUS lines (mailbox.go; the name goes through
+    utils.QuoteString since the F15 fix) ---- *)
 Definition list_line (kw attrs name : str) : str :=
-  S_ "* " ++ kw ++ S_ " (" ++ attrs ++ S_ ") ""/"" """ ++ name ++ [DQ].
+  S_ "* " ++ kw ++ S_ " (" ++ attrs ++ S_ ") ""/"" " ++ quote_string name.
 
 Definition status_line (name : str) (items : list (str * nat)) : str :=
-  S_ "* STATUS """ ++ name ++ S_ """ (" ++
+  S_ "* STATUS " ++ quote_string name ++ S_ " (" ++
   join (map (fun kv => fst kv ++ [SP] ++ dec (snd kv)) items) [SP] ++ [RP].
 
 (** ---- processFetchForMessage: assembly of the response ---- *)
 
-(** what one handler contributes *)
+(** what one handler contributes: one element of responseParts *)
 Inductive out :=
-| Inline (name value : str)      (* responseParts += "name value" *)
-| Lit (name payload : str)       (* responseParts += name; literalData += [" "] "{n}CRLF payload" *)
-| LitOver (name payload : str).  (* HEADER.FIELDS: literalData = "{n}CRLF payload" (overwrites) *)
+| Inline (name value : str)      (* "name value" *)
+| Lit (name payload : str).      (* literalPart(name, data) = "name {n}CRLF data" *)
 
 Definition lit_text (p : str) : str := [LB] ++ dec (length p) ++ [RB] ++ crlf ++ p.
 
-Fixpoint accumulate (plan : list out) (parts : list str) (lit : str) : list str * str :=
-  match plan with
-  | [] => (parts, lit)
-  | Inline n v :: r => accumulate r (parts ++ [n ++ [SP] ++ v]) lit
-  | Lit n p :: r =>
-      accumulate r (parts ++ [n]) ((match lit with [] => [] | _ => lit ++ [SP] end) ++ lit_text p)
-  | LitOver n p :: r => accumulate r (parts ++ [n]) (lit_text p)
+Definition part_text (o : out) : str :=
+  match o with
+  | Inline n v => n ++ [SP] ++ v
+  | Lit n p => n ++ [SP] ++ lit_text p
   end.
 
 Definition fetch_line (seq : nat) (plan : list out) : str :=
-  let '(parts, lit) := accumulate plan [] [] in
-  match parts with
+  match plan with
   | [] => S_ "* " ++ dec seq ++ S_ " FETCH (FLAGS ())"
-  | _ => S_ "* " ++ dec seq ++ S_ " FETCH (" ++ join parts [SP] ++
-         match lit with [] => [RP] | _ => [SP] ++ lit ++ [RP] end
+  | _ => S_ "* " ++ dec seq ++ S_ " FETCH (" ++ join (map part_text plan) [SP] ++ [RP]
   end.
 
 (** sendResponse appends CRLF *)
@@ -236,41 +240,22 @@ Definition send (resp : str) : str := resp ++ crlf.
 Definition pair_of (o : out) : str * str :=
   match o with
   | Inline n v => (n, v)
-  | Lit n p | LitOver n p => (n, lit_text p)
+  | Lit n p => (n, lit_text p)
   end.
 
 (** ---- classification of the known violations of C13 ---- *)
 Inductive finding :=
-| multi_literal      (* a literal-valued item that is not the last contribution *)
 | bare_cr_header     (* a header value with a bare CR reaches a quoted string *)
-| name_unescaped     (* a mailbox name with a double quote or backslash in LIST/LSUB/STATUS *)
 | flag_atom          (* a stored flag containing a parenthesis / quote / brace *)
 | item_suppressed    (* a requested item is not answered because of substring cross-talk *)
 | rfc822_renamed     (* RFC822 is answered under the name BODY[] *)
 | partial_range.     (* <a.b>: origin not reported / range ignored / applied to BODY[TEXT] of another item *)
-
-Definition is_lit (o : out) : bool := match o with Inline _ _ => false | _ => true end.
-
-(** None iff every contribution is inline except possibly the last one *)
-Fixpoint classify_plan (plan : list out) : option finding :=
-  match plan with
-  | [] => None
-  | [_] => None
-  | o :: r => if is_lit o then Some multi_literal else classify_plan r
-  end.
 
 Definition clean (s : str) : bool :=
   forallb (fun c => negb (Ascii.eqb c CR) && negb (Ascii.eqb c LF)) s.
 
 Definition classify_headers (raw : str) : option finding :=
   if forallb (fun h => clean (extract_header raw h)) env_headers then None else Some bare_cr_header.
-
-Definition name_plain (n : str) : bool :=
-  forallb (fun c => negb (Ascii.eqb c DQ) && negb (Ascii.eqb c BSL)
-                    && negb (Ascii.eqb c CR) && negb (Ascii.eqb c LF)) n.
-
-Definition classify_name (n : str) : option finding :=
-  if name_plain n then None else Some name_unescaped.
 
 (** bytes a flag may consist of (RFC 3501 atom bytes, plus the leading backslash) *)
 Definition flag_byte (c : ascii) : bool :=
